@@ -546,8 +546,9 @@ def _split_conj(e):
     return [e]
 
 
-def cone_slice(conjuncts, goal, cache):
-    """Keep only the conjuncts connected (through shared variables) to the goal's variables."""
+def cone_slice(conjuncts, goal, cache, hops=None):
+    """Keep only the conjuncts connected (through shared variables) to the goal's variables;
+    hops=k limits the closure to k rounds (dropping assumptions is sound for `unsat`)."""
     parts = []
     for c in conjuncts:
         parts.extend(_split_conj(c))
@@ -555,13 +556,16 @@ def cone_slice(conjuncts, goal, cache):
     remaining = [(c, _vars_of(c, cache)) for c in parts]
     kept = []
     changed = True
-    while changed:
+    rounds = 0
+    while changed and (hops is None or rounds < hops):
+        rounds += 1
         changed = False
+        vs0 = set(vs)
         rest = []
         for c, cv in remaining:
             if not cv:
                 kept.append(c)
-            elif cv & vs:
+            elif cv & vs0:
                 kept.append(c)
                 vs |= cv
                 changed = True
@@ -571,7 +575,7 @@ def cone_slice(conjuncts, goal, cache):
     return kept, len(remaining)
 
 
-def obligation_query(o, cache, margin=None):
+def obligation_query(o, cache, margin=None, hops=None):
     neg = z3.Not(o.claim)
     if margin is not None and (o.kind == "eq" or o.pairs):
         m = C.to_real(margin)
@@ -585,7 +589,7 @@ def obligation_query(o, cache, margin=None):
         base = [z3.substitute(c, *o.subst) for c in base]
         neg = z3.substitute(neg, *o.subst)
     if o.slice:
-        kept, dropped = cone_slice(base, neg, cache)
+        kept, dropped = cone_slice(base, neg, cache, hops=hops)
         return kept + [neg], dropped
     return base + [neg], 0
 
@@ -718,16 +722,37 @@ def run_harness(harness, tier="quick", seed=0, replay=None, verbose=True):
 
     # ---- discharge ----------------------------------------------------------------------
     second = tier == "thorough" and getattr(harness, "SECOND_SOLVER", True)
-    batch = smt.Batch(pid)
     reach_pre = {}
     cache = {}
+    # phase 0: sliced obligations are first tried with the assumptions one hop away from the goal
+    # only (dropping assumptions is sound for `unsat`); what this discharges skips the full query
+    pre_discharged = {}
+    if getattr(harness, "HOP_SLICE", True):
+        b0 = smt.Batch(pid + "-hop")
+        idx0 = []
+        for r in runs:
+            for o in r.obligations:
+                if o.slice and o.kind in ("eq", "bool") and not o.subst:
+                    q_full, _ = obligation_query(o, cache)
+                    q1, _ = obligation_query(o, cache, hops=1)
+                    if len(q1) < len(q_full):
+                        b0.add(q1, timeout_s=min(o.timeout, 30), tactic=o.tactic)
+                        idx0.append(o)
+        if idx0:
+            for o, res in zip(idx0, b0.solve()):
+                if res.status == "unsat":
+                    res.by = (res.by or "z3") + " (assumptions within one hop of the goal)"
+                    pre_discharged[id(o)] = res
+        b0.cleanup()
+    batch = smt.Batch(pid)
     index = []  # (kind, run, obj)
     for r in runs:
         for o in r.obligations:
+            if id(o) in pre_discharged:
+                continue
             q, dropped = obligation_query(o, cache)
             batch.add(q, timeout_s=o.timeout, tactic=o.tactic)
             index.append(("obl", r, o))
-        # reachability witness per path that carries obligations
         wrng = np.random.default_rng(seed + 3)
         lu_by_path = {}
         for o in r.obligations:
@@ -773,9 +798,17 @@ def run_harness(harness, tier="quick", seed=0, replay=None, verbose=True):
     lemma_failed = []
     discharged = 0
     solver_time = 0.0
+    discharged_pre = 0
+    solver_time_pre = 0.0
     reach_ok = {k: list(v) for k, v in reach_pre.items()}
     defined_stats = dict(queries=0, unsat=0)
     disagreements = []
+    for r in runs:
+        for o in r.obligations:
+            if id(o) in pre_discharged:
+                o.result = pre_discharged[id(o)]
+                discharged_pre += 1
+                solver_time_pre += o.result.time
     for (kind, r, obj), res in zip(index, results):
         solver_time += res.time
         if res.second and res.second[0] in ("sat", "unsat") and res.status in ("sat", "unsat") and res.second[0] != res.status:
@@ -958,7 +991,7 @@ def run_harness(harness, tier="quick", seed=0, replay=None, verbose=True):
             traces_validated_against_impl=tv["validated"] + len(violations) + len(known_hits),
             samples=samples or [dict(note="no obligations")],
             obligations=len(all_obls),
-            discharged=discharged,
+            discharged=discharged + discharged_pre,
             concrete_claims_true_on_their_path=sum(getattr(r, "inline_true", 0) for r in runs),
             sat_replayed=len(violations) + len(known_hits),
             known_findings=sorted(seen_known),
@@ -972,7 +1005,7 @@ def run_harness(harness, tier="quick", seed=0, replay=None, verbose=True):
             bounds=getattr(harness, "BOUNDS", {}).get(tier, getattr(harness, "BOUNDS", {})),
             outside_claim=getattr(harness, "OUTSIDE", []),
             solver="z3 " + z3.get_version_string() + (" + /usr/bin/z3 4.8.12 cross-check" if second else ""),
-            solver_time_s=round(solver_time, 2),
+            solver_time_s=round(solver_time + solver_time_pre, 2),
             solve_wall_s=round(t_solve, 2),
             explore_wall_s=round(t_explore, 2),
             queries=len(results),
@@ -990,7 +1023,7 @@ def run_harness(harness, tier="quick", seed=0, replay=None, verbose=True):
     with open(os.path.join(VERIF, "evidence", f"{pid}.json"), "w") as f:
         json.dump(ev, f, indent=1, default=str)
     batch.cleanup()
-    log(f"[{pid}] tier={tier} obligations={len(all_obls)} discharged={discharged} known={len(known_hits)} violations={len(violations)} "
+    log(f"[{pid}] tier={tier} obligations={len(all_obls)} discharged={discharged + discharged_pre} known={len(known_hits)} violations={len(violations)} "
         f"inconclusive={len(inconclusive)+len(unreproduced)} problems={len(problems)} wall={wall:.1f}s exit={code}")
     return code
 
